@@ -48,7 +48,9 @@ func (this *C40Encoder) encode(context *EncoderContext) error {
 					return e
 				}
 			}
-			for (len(buffer)%3) == 1 && (lastCharSize > 3 || available != 1) {
+			// a single value is left to ASCII encodation only if that is one codeword: not for an extended
+			// character (three or four values), which takes two
+			for (len(buffer)%3) == 1 && (lastCharSize > 2 || available != 1) {
 				lastCharSize, buffer, removed = this.backtrackOneCharacter(context, buffer, removed, lastCharSize)
 				if available, e = c40Available(context, buffer); e != nil {
 					return e
